@@ -71,7 +71,7 @@ def _chunk(draw, text):
     else:
         n = draw(st.integers(1, 30))
     c = {"n": n, "seed": draw(st.integers(0, 2 ** 32 - 1)),
-         "layout": draw(st.sampled_from(["contig", "contig", "contig", "strided"]))}
+         "layout": draw(st.sampled_from(["contig", "contig", "contig", "contig", "strided", "strided", "2d"]))}
     if not text and draw(st.integers(0, 39)) == 0:
         # a binary chunk whose size sits next to a power-of-two boundary a buffered writer might split at
         # (the row count follows from the row size of the form when the chunk is built)
@@ -216,6 +216,10 @@ def _as_arg(a, chunk):
         big = np.zeros(a.size * 2 + 1, dtype=a.dtype)
         big[1::2] = a
         return big[1::2]
+    if chunk.get("layout") == "2d":
+        # the chunk held as a 2-d array of records: its records in C order are the rows appended
+        k = next((k for k in (2, 3, 5) if a.size % k == 0 and a.size > k), 1)
+        return a.reshape(k, a.size // k)
     return a
 
 
@@ -675,6 +679,8 @@ def classify(case):
                 labs.add("chunk:>=64KiB" if op["chunk"]["target_bytes"] < 2 ** 20 else "chunk:>=1MiB")
             if op["chunk"]["layout"] == "strided":
                 labs.add("chunk:strided")
+            if op["chunk"]["layout"] == "2d":
+                labs.add("chunk:2d-array-of-records")
         if cur is not None:
             labs.add("form:text" if cur["delim"] is not None else "form:binary")
             if cur["delim"] is not None:
